@@ -28,6 +28,7 @@ NOT PROVED / findings, see EXPLANATION.
 """
 import os
 import z3
+from hwv.extract import BindingError
 from hwv.contract import B, bvc, bits, zx
 from luna.gateware.stream.generator import ConstantStreamGenerator, StreamSerializer
 from luna.gateware.stream import StreamInterface
@@ -73,7 +74,8 @@ def umin(a, b):
 
 def reg(ts, name):
     r = [v for v in ts.state.values() if str(v) == ts.prefix + name]
-    assert len(r) == 1, (name, [str(v) for v in ts.state.values()])
+    if len(r) != 1:
+        raise BindingError(f"no register named {name!r}")
     return r[0]
 
 
@@ -243,7 +245,7 @@ def make_serializer(n, mlw=None, domain="sync", width=8):
         word = m.gs + m.gi
         if n > 1:
             c.inv("position_is_start_plus_words_done", z3.Implies(m.streaming, zx(reg(ts, "position_in_stream"), W) == word))
-        c.inv("bytes_sent_counts_accepted_words", z3.Implies(m.streaming, zx(reg(ts, "bytes_sent"), W) == m.gi))
+        c.try_inv("bytes_sent_counts_accepted_words", lambda: z3.Implies(m.streaming, zx(reg(ts, "bytes_sent"), W) == m.gi))
 
         cur = bvc(0, width)
         for i in reversed(range(n)):
